@@ -755,14 +755,16 @@ def c16(tier):
         return mk(name, 'c16_delayed.cpp', threads, rounds, order=order, final='vp_final', cover=(1 << len(threads)) - 1, defines=defines,
                   opts={'yield_blocks': False, 'noinline': NI}, object_bits=12, **kw)
     big = dict(unwind=3, solvers=('kissat',), mem_gb=40, timeout=3400, est_gb=20)
-    seq = dict(unwind=4, checks='pointer', timeout=2400, object_bits=12, mem_gb=40, est_gb=14, solvers=('kissat',))
+    seq = dict(unwind=4, checks='pointer', timeout=2400, object_bits=12, mem_gb=40, est_gb=7, solvers=('kissat',))
     def sq(name, defines):
         return mk(name, 'c16_delayed.cpp', [], 1, seq=['vp_seq'], final='vp_final', cover=1, defines=defines, opts={'noinline': NI}, **seq)
     if tier == 'quick':
-        qs.append(dq('dd_adder_destroyer_R2', [A, D], 2, [], **big))
+        # the quick tier has 900 s per property: the lightest concurrent shape (no size() call, accounting-only final, at most one element)
+        qs.append(dq('dd_adder_destroyer_light_R2', [A, D], 2, ['LIGHT'], **dict(big, unwind=2, timeout=800, est_gb=7)))
         qs.append(sq('dd_seq_single_cb', ['SINGLE', 'WITH_CALLBACK', 'REENTER', 'DROP2']))
         qs.append(sq('dd_seq_locked_cb', ['WITH_CALLBACK', 'REENTER', 'DROP1_EARLY']))
     else:
+        qs.append(dq('dd_adder_destroyer_light_R2', [A, D], 2, ['LIGHT'], **dict(big, unwind=2, est_gb=7)))
         qs.append(dq('dd_adder_destroyer_R2', [A, D], 2, [], **big))
         qs.append(dq('dd_adder_destroyer_preload_reenter_R2', [A, D], 2, ['PRELOAD2', 'REENTER'], **big))
         qs.append(dq('dd_adder_destroyer_preload_cb_reenter_R2', [A, D], 2, ['PRELOAD2', 'REENTER', 'WITH_CALLBACK'], **big))
@@ -786,7 +788,7 @@ C16_SPEC = dict(queries=c16, assumptions=COMMON_ASSUMPTIONS + [
     "held by another thread is not explored from that point (it is reported only when the lock is held by the calling thread itself)",
     "sequential queries (dd_seq_*): both classes, add / drop / destroyObjects / callback / re-entrance for fixed drop patterns - these are single executions pushed through the "
     "same encoding (the solver has no free input there); they are listed because they are the only runs of DelayedDestructorSingleThread",
-    "formula size: 13-16 M variables, 57-72 M clauses per concurrent query (cbmc 10-14 GB + kissat 6-8 GB, 12-25 min each): the memory governor of vcheck.py runs at most two at once"],
+    "formula size: 13-16 M variables, 57-72 M clauses per full concurrent query (cbmc 10-14 GB + kissat 6-8 GB, 12-25 min each, thorough tier; the memory governor of vcheck.py runs at most two at once); the quick tier (900 s per property) runs the lightest concurrent shape - adder || destroyer without the size() call, accounting-only final step, at most one element, unwind 2 (about 5 min, 4.4 GB) - plus the two sequential runs"],
     outside=["more than 2 threads / 2 contexts per thread / 2 objects", "destroyObjects(delay) overload and the retry loop of ~DelayedDestructor racing with an owner that drops its reference "
              "meanwhile (the destructor is run after all threads finished, in the thorough tier)", "TripWire short-circuit (ENABLE_TRIPWIRE off)", "exceptions thrown by destructors / callbacks"])
 SPECS['C16'] = C16_SPEC
@@ -817,7 +819,9 @@ NOT_APPLICABLE = {
            "removeObject(predicate)) was found by reading, confirmed with ASan and repaired in /repo (fix: 5c115ee); no solver check decides C17.",
     'C18': "DelayedObjects: std::map<int/string, std::promise<X>> with symbolic keys/operation sequences did not finish symbolic execution in 10 min (two symbolic "
            "operations) [measured]; <future> itself had to be replaced by a stub (its state lives behind libstdc++.so entry points). A harness and the tree/future models "
-           "exist (harness/c18_delayedobj.cpp, engine/vpmodels.h) but produce no verdict inside any budget tried, so the property is not claimed.",
+           "exist (harness/c18_delayedobj.cpp, engine/vpmodels.h) but produce no verdict inside any budget tried: the last attempt - fixed program (setDelayedValue || "
+           "fulfillAllPromises, 2 threads x 2 contexts), map / promise / shared-state plumbing run atomically, the recipe that made C06 and C16 decidable - was still in cbmc's "
+           "symbolic execution when its 50 min cap expired [measured]. The property is not claimed.",
 }
 
 
